@@ -232,13 +232,10 @@ def run_disc(ctx, case):
         cand, cvals = optimize_acqf_discrete(acq, q, ch)
     except Exception as e:
         if q > n and _is_d7(e):
+            # regression key of defect D7 (fixed in /repo by commit 00d0f01)
             _viol(ctx, D7_KEY, "optimize_acqf_discrete raises ValueError (argmax of an empty sequence) when "
                           "the batch size exceeds the number of choices; the property demands a batch for every "
                           "batch size >= 1", case, detail={"n": n, "q": q})
-            model = ctx.ask("optd", core.qvec(vals), str(q))
-            if model != "err":
-                _viol(ctx, "disc-model-crash", "code raises for q > n but the model of the code does not",
-                              case, kind="F", detail={"model": model})
             ctx.count("disc_crash_q_gt_n")
         else:
             _viol(ctx, "disc-crash:" + core.exc_key(e), f"optimize_acqf_discrete raised {type(e).__name__}: {e}", case)
@@ -260,8 +257,12 @@ def run_disc(ctx, case):
         _viol(ctx, "disc-spec", "optimize_acqf_discrete output violates the batch specification (q distinct "
                       "rows, each maximal among the rows not picked before it, values non-increasing and equal to "
                       "the rows' acquisition values)", case, detail={"positions": pos, "values": cvals, "lean": spec})
-    model = ctx.ask("optd" if q <= n else "optdtotal", core.qvec(vals), str(q))
-    if model in ("err", "bad-op"):
+    model = ctx.ask("optd", core.qvec(vals), str(q))
+    prefix = ctx.ask("optdprefix", core.qvec(vals), str(q))
+    if (prefix == "err") != (q > n) or (q <= n and prefix != model):
+        _viol(ctx, "disc-model-prefix", "Lean: the pre-fix loop must crash exactly for q > n and agree with the "
+              "fixed loop otherwise", case, kind="F", detail={"prefix": prefix, "model": model})
+    if model in ("err", "bad-op", "empty"):
         _viol(ctx, "disc-model", "Lean model gives no batch where the code returned one", case, kind="F",
                       detail={"model": model})
     else:
@@ -315,10 +316,6 @@ def run_dec(ctx, case):
             _viol(ctx, D7_KEY, "optimize_acqf_discrete raises ValueError (argmax of an empty sequence) when "
                           "the batch size exceeds the number of choices; the property demands a batch for every "
                           "batch size >= 1", case, detail={"n": n, "q": q, "via": "optimize_decoupled_acqf_discrete"})
-            model = ctx.ask("optdec", core.qmat(table), str(q))
-            if model != "err":
-                _viol(ctx, "dec-model-crash", "code raises for q > n but the model of the code does not",
-                              case, kind="F", detail={"model": model})
             ctx.count("dec_crash_q_gt_n")
         else:
             _viol(ctx, "dec-crash:" + core.exc_key(e),
@@ -356,9 +353,9 @@ def run_dec(ctx, case):
                       "left out no larger than any selected one)", case,
                       detail={"positions": pos, "objs": objs, "values": cvals, "lean": spec})
     flat = [v for r in table for v in r]
-    if q <= n:
+    if True:
         model = ctx.ask("optdec", core.qmat(table), str(q))
-        if model == "err" or model == "bad-op":
+        if model in ("err", "bad-op", "empty"):
             _viol(ctx, "dec-model", "Lean model gives no batch where the code returned one", case, kind="F",
                           detail={"model": model})
         else:
@@ -675,8 +672,9 @@ def run_alg(ctx, case):
                     crashed = True
                     rec = evals[-1] if evals and evals[-1]["exc"] is e else None
                     if rec is not None and _through_optimiser(e) and case["batch"] > len(rec["snap"]["active"]):
-                        # with a real GP behind the acquisition the empty `choices` array already makes
-                        # `acq(choices)` raise (RuntimeError in gpytorch) before np.argmax is reached
+                        # regression key of defect D7.  With a real GP behind the acquisition the empty
+                        # `choices` array already made `acq(choices)` raise (RuntimeError in gpytorch,
+                        # ValueError in locate_points) before np.argmax was reached
                         _viol(ctx, D7_KEY, "optimize_acqf_discrete raises ValueError (argmax of an empty sequence) when "
                               "the batch size exceeds the number of choices; the property demands a batch for every "
                               "batch size >= 1", case,
@@ -888,8 +886,8 @@ def _check_coupled(ctx, case, name, alg, rec, fcalls, pcalls, adds):
               "recorded acquisition values in non-increasing order", case,
               detail={"choices": rows, "values": v0, "queried": queried, "lean": spec})
     else:
-        model = ctx.ask("optd", core.qvec(v0), str(1 if refined else qeff))
-        if model not in ("err", "bad-op"):
+        model = ctx.ask("optd", core.qvec(v0), str(1 if refined else q))
+        if model not in ("err", "bad-op", "empty"):
             mp = core.parse_nats(model.split(" ")[0])
             if mp != pos:
                 if len(set(v0)) == len(v0):
@@ -944,8 +942,9 @@ def _thompson_batch(ctx, case, name, alg, rec, fcalls, queried, objs):
     C, info = [], []   # per (objective, call): maximum, and the designs allowed as that call's pick
     for j in range(m):
         cj = [c for c in fcalls if c["j"] == j]
-        if len(cj) != q:
-            _viol(ctx, "no-acquisition", f"{name}: objective {j} consulted {len(cj)} times for batch size {q}", case, kind="F")
+        if len(cj) != min(q, len(snap["active"])):
+            _viol(ctx, "no-acquisition", f"{name}: objective {j} consulted {len(cj)} times for batch size {q} and "
+                  f"{len(snap['active'])} choices", case, kind="F")
             return None
         for k, c in enumerate(cj):
             vals = [float(v) for v in c["v"]]
@@ -980,9 +979,9 @@ def _thompson_batch(ctx, case, name, alg, rec, fcalls, queried, objs):
             return None
         used.add(hit[0])
         pos.append(hit[0])
-    spec = ctx.ask("specd", core.qvec(C), str(q), core.nats(pos), core.qvec(avals))
+    spec = ctx.ask("specd", core.qvec(C), str(min(q, len(C))), core.nats(pos), core.qvec(avals))
     if spec != "ok":
-        _viol(ctx, "batch-spec", f"{name}: the batch is not the top-{q} of the per-objective candidates in "
+        _viol(ctx, "batch-spec", f"{name}: the batch is not the top-{min(q, len(C))} of the per-objective candidates in "
               "non-increasing order", case, detail={"candidates": C, "positions": pos, "values": avals})
     return len(set(C)) >= 2
 
@@ -1094,7 +1093,7 @@ def _table_batch(ctx, case, name, alg, rec, rows, table, queried, objs):
     else:
         flat = [v for r in table for v in r]
         model = ctx.ask("optdec", core.qmat(table), str(q))
-        if model not in ("err", "bad-op"):
+        if model not in ("err", "bad-op", "empty"):
             mp, mo, _ = model.split(" ")
             if (core.parse_nats(mp), core.parse_nats(mo)) != (pos, objs):
                 if len(set(flat)) == len(flat):
